@@ -10,8 +10,8 @@ MODULE = "GoldilocksVerif.Props.C08"
 def make_cases(seed, tier):
     rng = Rng(seed ^ 0xC08)
     cases = []
-    rows_l = [1, 2, 4, 8] if tier == "quick" else [1, 2, 4, 8, 16, 32, 64]
-    cols_l = [0, 1, 4, 5, 9] if tier == "quick" else list(range(0, 18)) + [33]
+    rows_l = [1, 2, 4, 8] if tier == "quick" else [1, 2, 4, 8, 16, 32]
+    cols_l = [0, 1, 4, 5, 9] if tier == "quick" else list(range(0, 10)) + [12, 16, 17, 33]
     for rows in rows_l:
         for cols in cols_l:
             for dim in (1, 3):
@@ -26,7 +26,7 @@ def make_cases(seed, tier):
                                   "key": "merkletree/%d" % v, "tag": "rows=%d" % rows,
                                   "expect": (lambda o, t=tree: (canon(o) == t and len(o) == len(t), "reference tree of %d elements" % len(t)))})
                 for batch in sorted(set([1, 2, 3, 4, 7, max(cols, 1), cols + 1])):
-                    if tier == "quick" and rng.below(4) != 0:
+                    if rng.below(4 if tier == "quick" else 2) != 0:
                         continue
                     btree = merkle([batch_leaf(r, cols, dim, batch) for r in rws])
                     for v in (0, 1, 2, 3):
